@@ -675,6 +675,18 @@ func TestVerifWire(t *testing.T) {
 	readCase("corpus-min-open", wSerOpen(&vOpenMsg{Ver: 4, ASN: 64512, Hold: 90, ID: [4]byte{10, 0, 0, 1}}, 0), 0)
 	readCase("corpus-open-31", wSerOpen(&vOpenMsg{Ver: 4, ASN: 64512, Hold: 90, ID: [4]byte{10, 0, 0, 1}, Params: []vParam{{Type: 2}}}, 0), 0)
 	readCase("corpus-open-35", wSerOpen(&vOpenMsg{Ver: 4, ASN: 23456, Hold: 9, ID: [4]byte{10, 0, 0, 1}, Params: []vParam{{Type: 2, Caps: []vCap{{2, nil}, {128, nil}}}}}, 0), 0)
+	// the 2-octet "My AS" field and the 4-octet capability in every combination: the capability,
+	// when present, is the peer's AS number whatever the 2-octet field says (RFC 6793)
+	for _, f16 := range []uint16{64999, 64000, 23456} {
+		for _, c32 := range []int64{64999, 70000, -1} {
+			o := &vOpenMsg{Ver: 4, ASN: f16, Hold: 90, ID: [4]byte{10, 0, 0, 2}, Params: []vParam{{Type: 2, Caps: []vCap{{1, []byte{0, 1, 0, 1}}}}}}
+			if c32 >= 0 {
+				o.Params[0].Caps = append(o.Params[0].Caps, vCap{65, []byte{byte(c32 >> 24), byte(c32 >> 16), byte(c32 >> 8), byte(c32)}})
+			}
+			readCase("corpus-asn-field-vs-capability", wSerOpen(o, 0), 0)
+			out.Stat("read:asn-field-vs-capability", 1)
+		}
+	}
 	// notification headers whose announced length is below 21
 	hdr := func(l int, ty byte, rest ...byte) []byte {
 		b := bytes.Repeat([]byte{0xff}, 16)
